@@ -106,7 +106,7 @@ def reweight_case(draw, tier):
     d = draw(weight_and_obs(tier))
     d['all_configs'] = draw(st.booleans())
     d['api'] = draw(st.sampled_from(['function', 'function', 'method', 'corr']))
-    d['then'] = draw(st.sampled_from(['none', 'add', 'sin', 'mul']))
+    d['then'] = draw(st.sampled_from(['none', 'add', 'radd', 'rmul', 'sin', 'mul']))
     return d
 
 
@@ -136,6 +136,10 @@ def reweight_oracle(spec):
     r0 = res[0]
     if spec['then'] == 'add':
         d = r0 + objs[-1]
+    elif spec['then'] == 'radd':
+        d = objs[-1] + r0          # the reweighted operand is not the first one
+    elif spec['then'] == 'rmul':
+        d = objs[-1] * (objs[0] - r0)
     elif spec['then'] == 'sin':
         d = np.sin(r0)
     elif spec['then'] == 'mul':
